@@ -6,6 +6,7 @@ pub mod c01;
 pub mod c02;
 pub mod hist;
 pub mod c03;
+pub mod c04;
 pub mod c06;
 pub mod c08;
 pub mod c09;
@@ -13,7 +14,7 @@ pub mod c11;
 
 use crate::engine::{json, Case, Run};
 
-pub const ALL: [&str; 7] = ["C01", "C02", "C03", "C06", "C08", "C09", "C11"];
+pub const ALL: [&str; 9] = ["C01", "C02", "C03", "C04", "C05", "C06", "C08", "C09", "C11"];
 
 pub fn known(id: &str) -> bool {
     ALL.contains(&id)
@@ -24,6 +25,8 @@ pub fn run(run: &Run) {
         "C01" => c01::run(run),
         "C02" => c02::run(run),
         "C03" => c03::run(run),
+        "C04" => c04::run(run),
+        "C05" => c04::run_c05(run),
         "C06" => c06::run(run),
         "C08" => c08::run(run),
         "C09" => c09::run(run),
@@ -38,6 +41,8 @@ pub fn replay_case(prop: &str, case: &Case) -> Result<Result<(), (String, String
         "C01" => c01::replay(case),
         "C02" => c02::replay(case),
         "C03" => c03::replay(case),
+        "C04" => c04::replay(case),
+        "C05" => c04::replay_c05(case),
         "C06" => c06::replay(case),
         "C08" => c08::replay(case),
         "C09" => c09::replay(case),
